@@ -14,12 +14,15 @@ PARTIAL = [
     "under the hypothesis 'no write to k between a task's probe-miss of k and its insert-if-vacant, writes to a key issued in batch-epoch order' "
     "is kept as `def C09_concurrent_statement : Prop` and is not proved (random walks of the model, 60k schedules with 2-3 tasks, found no "
     "counterexample under the hypothesis and do find F9 without it; that is a test, not a proof)",
-    "set_refines_map is proved for the REPAIRED configuration of the set-cache model (get_snapshot folds chronologically/last-wins, Spilled "
-    "iterator keeps draining); for the code as it is the statement is refuted (theorems set_asis_fails_* = findings F10, F17, all reproduced on "
-    "the real code through the public API) and what holds is set_refines_map_asis_partial under `getSafe` (at most one staged operation per "
-    "element in the staging log when a set is read; no staged removal among the first threshold+1 store elements when a spilled set is fetched)",
     "set cache: foreground operations are atomic steps of the model (background commit / notify / evictions are placed between them, as in the "
     "property's quantifier); interleavings inside a set operation and concurrent foreground tasks on the set cache are not covered",
+]
+HISTORICAL = [
+    "set_refines_map is a statement about the code as it is: findings F10 (get_snapshot cancelled staged operations in heap order) and F17 "
+    "(Spilled iterator ended early) were found by this check and fixed in /repo (d9a4d81, b91d22f); the model's switches fixSnap/fixSpill are "
+    "kept, `repaired` (both on) is what the correspondence runs, `asIs` (both off) is the code before the fixes",
+    "set_asis_fails_heap_order / _cancel / _committed_op / _spilled: decide-witnesses of the two fixed defects on the pre-fix configuration; "
+    "set_refines_map_asis_partial: what the pre-fix code guaranteed (reads inside `getSafe`); both kept as history, neither is about the current code",
 ]
 ASSUMPTIONS = [
     "a pinned entry is not evicted (TinyLFU asks `is_pinned` again under the entry lock) — imported from C16; the model's `evict` is enabled exactly when pin <= 0 "
@@ -42,8 +45,6 @@ TRUSTED_EXTRA = [
 ]
 RULE = ("case has at least one background commit and at least one read that went to the store (miss after eviction / streaming / fetch); "
         "distinct by case text")
-KNOWN_SIGS = {"snap": "C09:F10:staging-overlay-cancels-operations", "spill": "C09:F17:spilled-iterator-ends-early",
-              "both": "C09:F10+F17"}
 
 
 def _read(p):
@@ -96,28 +97,6 @@ def _collect(res, o, dist):
     return rep
 
 
-def _attribute(ctx, binp, fail, idx):
-    """DESIGN §2.4: a failing case of the unrestricted stream is attributed to a known finding iff the as-is model
-    agrees with the implementation on the case and the model with exactly that finding's switch repaired meets the
-    reference on the case."""
-    d = os.path.join(ctx.work, f"attr{idx}")
-    os.makedirs(d, exist_ok=True)
-    casef = os.path.join(d, "case.txt")
-    open(casef, "w").write(fail.get("orig") or fail["case"])
-    rc, log = vlib.sh([binp, "--replay", casef, "--out", d], timeout=600)
-    if rc != 0: return None
-    imp, ref = _read(os.path.join(d, "impl.txt")), _read(os.path.join(d, "ref.txt"))
-    if imp == ref: return None  # did not fail again
-    outs = {}
-    for name, args in (("asis", []), ("snap", ["fix=snap"]), ("spill", ["fix=spill"]), ("both", ["fix=snap", "fix=spill"])):
-        rc, err = vlib.run_driver(DRIVER, os.path.join(d, "ops.txt"), os.path.join(d, f"model_{name}.txt"), args)
-        outs[name] = _read(os.path.join(d, f"model_{name}.txt"))
-    if outs["asis"] != imp: return None
-    for name in ("snap", "spill", "both"):
-        if outs[name] == ref: return KNOWN_SIGS[name]
-    return None
-
-
 def run(ctx, boost=1):
     res = vlib.Result()
     res.rule = RULE
@@ -138,36 +117,23 @@ def run(ctx, boost=1):
         if rep: res.oracle_failures += [f for f in rep["oracle_failures"]]
         res.distribution = dist
         return res
-    # 1. restricted stream (inside the hypothesis of the as-is partial theorem): every oracle failure is a violation
+    # 1. main stream (unrestricted histories; since the fixes of F10/F17 every oracle failure is a violation)
     shards = ctx.jobs
-    n = (2500 if ctx.quick() else 12000) * boost
-    jobs = [(ctx, binp, f"r{i}", ctx.seed * 1000 + i, n, [], ["assert-safe"]) for i in range(shards)]
+    n = (2500 if ctx.quick() else 30000) * boost
+    jobs = [(ctx, binp, f"r{i}", ctx.seed * 1000 + i, n, [], []) for i in range(shards)]
     for o in vlib.shard_map(_shard, jobs, ctx.jobs):
         rep = _collect(res, o, dist)
         if rep: res.oracle_failures += rep["oracle_failures"]
-    # 2. unrestricted stream: model (as-is) must agree line by line; oracle failures are attributed (or not) to known findings
-    nu = (400 if ctx.quick() else 3000) * boost
-    jobs = [(ctx, binp, f"u{i}", ctx.seed * 1000 + 500 + i, nu, ["--unrestricted", "--no-shrink"], []) for i in range(min(shards, 8))]
-    attributed, unattributed, k = {}, 0, 0
+    # 2. the stream restricted to the region in which the pre-fix code was already correct (kept: different op mix)
+    nu = (400 if ctx.quick() else 6000) * boost
+    jobs = [(ctx, binp, f"u{i}", ctx.seed * 1000 + 500 + i, nu, ["--restricted"], ["assert-safe"]) for i in range(min(shards, 8))]
     for o in vlib.shard_map(_shard, jobs, ctx.jobs):
         rep = _collect(res, o, dist)
-        if not rep: continue
-        for f in rep["oracle_failures"]:
-            if f["sig"].startswith("set-") and k < 60:
-                k += 1
-                sig = _attribute(ctx, binp, f, k)
-                if sig:
-                    attributed[sig] = attributed.get(sig, 0) + 1
-                    if attributed[sig] == 1: res.oracle_failures.append({"sig": sig, "desc": f["desc"], "case": f.get("orig") or f["case"]})
-                    continue
-                unattributed += 1
-                res.oracle_failures.append(f)
-            elif not f["sig"].startswith("set-"):
-                res.oracle_failures.append(f)
+        if rep: res.oracle_failures += rep["oracle_failures"]
     # 2b. oracle-only stream with the engine's own set type (Arc<DashSet>) instead of the harness's sorted set
     def _dash(i):
         out = os.path.join(ctx.work, f"d{i}")
-        rc, log = vlib.sh([binp, "--seed", str(ctx.seed * 1000 + 900 + i), "--tier", ctx.tier, "--out", out, "--n", str((300 if ctx.quick() else 2000) * boost), "--dash"], timeout=3000)
+        rc, log = vlib.sh([binp, "--seed", str(ctx.seed * 1000 + 900 + i), "--tier", ctx.tier, "--out", out, "--n", str((300 if ctx.quick() else 4000) * boost), "--dash"], timeout=3000)
         return (out, rc, log)
     dash_cases = 0
     for out, rc, log in vlib.shard_map(_dash, list(range(4)), ctx.jobs):
@@ -178,16 +144,18 @@ def run(ctx, boost=1):
         res.evaluations += rep["evaluations"]
         res.oracle_failures += rep["oracle_failures"]
     res.extra["oracle_only_cases_with_DashSet"] = dash_cases
-    # 3. canonical replays of the known findings (printed as KNOWN-FINDING only while they still fail)
-    canon = {"C09-f10a.txt": "snap", "C09-f10b.txt": "snap", "C09-f10c.txt": "snap", "C09-f13.txt": "spill"}
-    for i, (fn, kind) in enumerate(sorted(canon.items())):
+    # 3. replays of the fixed findings F10 (three forms) and F17: must run clean now; a failure is a violation
+    for i, fn in enumerate(["C09-f10a.txt", "C09-f10b.txt", "C09-f10c.txt", "C09-f13.txt"]):
         p = os.path.join(vlib.VERIF, "corpus", fn)
-        if not os.path.exists(p): continue
-        f = {"case": open(p).read(), "desc": f"canonical replay corpus/{fn}", "sig": "set-read-differs-from-reference"}
-        sig = _attribute(ctx, binp, f, 100 + i)
-        if sig:
-            attributed[sig] = attributed.get(sig, 0) + 1
-            res.oracle_failures.append({"sig": sig, "desc": f"canonical replay corpus/{fn} still fails as the as-is model predicts", "case": f["case"]})
+        if not os.path.exists(p):
+            res.disagreements.append({"line": 0, "op": "corpus/" + fn, "impl": "missing corpus file", "model": ""}); continue
+        o = _run_stream(ctx, binp, f"c{i}", ctx.seed, 1, ["--replay", p], [])
+        rep = _collect(res, o, dist)
+        if rep:
+            for f in rep["oracle_failures"]:
+                f["sig"] = f"corpus/{fn}:{f['sig']}"
+                f["desc"] = f"replay corpus/{fn} of a fixed finding fails again: " + f["desc"]
+                res.oracle_failures.append(f)
     # 4. two real threads: the stale fill (F9)
     d = os.path.join(ctx.work, "conc")
     rc, log = vlib.sh([binp, "--stale-fill", "--fill-vs-write", "--n", "0", "--out", d], timeout=600)
@@ -197,8 +165,7 @@ def run(ctx, boost=1):
         res.extra["two_thread_stale_fill"] = rep.get("concurrency", "")
     else:
         res.disagreements.append({"line": 0, "op": "stale-fill scenario", "impl": log[-600:], "model": ""})
-    res.extra["unrestricted_stream_failures_attributed"] = attributed
-    res.extra["unrestricted_stream_failures_unattributed"] = unattributed
+    res.extra["historical"] = HISTORICAL
     res.distribution = dist
     res.partial = PARTIAL
     return res
